@@ -26,6 +26,7 @@ func runC15(c *Ctx) {
 	c.rule("U1", "loading succeeds only through Validate(): every possibly-nil return of LoadFromEnvironment follows configurationToSet.Validate() and returns its (wrapped) result; Load/LoadFromViper delegate to it", 3)
 	c.rule("U2", "source order in LoadFromEnvironment: MergeConfigMap(defaults) → configuration file → linkFlagKeysToStructureKeys → Unmarshal → Validate", 4)
 	c.rule("U3", "linkFlagKeysToStructureKeys: a set flag is written with Set(); the default of an unset flag is forced only where the structure key is empty", 2)
+	c.rule("U8", "ValidateEmbedded calls Validate() on every field of struct kind that implements Validator, whatever the field holds, and returns its error", 1)
 	c.rule("U6", "names with an empty prefix: prefix and separator are joined only where the prefix was found non-empty", 2)
 	c.rule("U7", "structure keys are linked to flag keys without prefix removal", 1)
 	c.rule("U5", "a prefix is tested and removed in the letter case of the string it is removed from", 2)
@@ -294,7 +295,9 @@ func runC15(c *Ctx) {
 			}
 			nJoin++
 			nonEmpty := onBoolSide(cl, false, func(v ssa.Value) bool { return c15EmptyTest(v, prefix, token.EQL) }) ||
-				onBoolSide(cl, true, func(v ssa.Value) bool { return c15EmptyTest(v, prefix, token.NEQ) || c15EmptyTest(v, prefix, token.GTR) })
+				onBoolSide(cl, true, func(v ssa.Value) bool {
+					return c15EmptyTest(v, prefix, token.NEQ) || c15EmptyTest(v, prefix, token.GTR)
+				})
 			c.check(nonEmpty, "U6", fname(f)+"/prefix-then-separator", c.ipos(cl), "prefix and separator joined only where the prefix is not empty",
 				"prefix and separator are joined although the prefix may be empty: the name starts with the separator (\"_APPLICATION\") whereas loading with an empty prefix honours the bare name (\"APPLICATION\") — the names reported, and the variables flags are bound to, are not the names honoured")
 		})
@@ -316,6 +319,74 @@ func runC15(c *Ctx) {
 		})
 		c.check(bad == "", "U7", fname(lk)+"/structure-keys-as-they-are", c.pos(lk.Pos()), "the flag key of a structure key is computed without prefix removal",
 			"the flag key of a structure key is computed through prefix removal at "+bad+": a key that merely starts like the prefix (prefix \"app\", key \"application\" or \"app_name\") is linked to another flag key than the one BindFlagToEnv registers, and the explicitly set flag is ignored")
+	}
+
+	// ---- U8 -----------------------------------------------------------------
+	// "passes Validate at every nesting level": ValidateEmbedded is what carries validation down. For every field of struct
+	// kind that implements Validator, Validate() is called whatever the field holds (a section nobody configured is exactly
+	// the one whose required fields are missing), and its error comes back.
+	if ve := c.fnOpt(cfgPkg, "ValidateEmbedded"); ve != nil {
+		c.FuncsSeen[fname(ve)] = true
+		var validate *ssa.Call
+		var kindTest *ssa.If
+		kindTrue := 0
+		allInstrs(ve, func(in ssa.Instruction) {
+			if cl, ok := in.(*ssa.Call); ok && cl.Call.IsInvoke() && cl.Call.Method.Name() == "Validate" && inLoop(cl) {
+				validate = cl
+			}
+		})
+		for _, b := range ve.Blocks {
+			ifi, ok := b.Instrs[len(b.Instrs)-1].(*ssa.If)
+			if !ok {
+				continue
+			}
+			v, ts := boolTest(ifi)
+			bo, isB := v.(*ssa.BinOp)
+			if !isB || (bo.Op != token.EQL && bo.Op != token.NEQ) {
+				continue
+			}
+			for _, o := range []ssa.Value{bo.X, bo.Y} {
+				if kc, isCall := o.(*ssa.Call); isCall && calleeFull(&kc.Call) == "(reflect.Value).Kind" {
+					kindTest = ifi
+					kindTrue = ts
+					if bo.Op == token.NEQ {
+						kindTrue = 1 - ts
+					}
+				}
+			}
+		}
+		key := fname(ve) + "/every-section-validated"
+		switch {
+		case validate == nil || kindTest == nil:
+			c.violate("U8", key, c.pos(ve.Pos()), "ValidateEmbedded no longer calls Validate() on the fields of struct kind inside its loop over the fields")
+		default:
+			hdr := loopHeaderOf(validate)
+			start := kindTest.Block().Succs[kindTrue].Instrs[0]
+			skip := ssa.Instruction(nil)
+			if hdr != nil {
+				if start == ssa.Instruction(validate) {
+					skip = nil
+				} else {
+					skip = pathPruned(ve, start, func(i ssa.Instruction) bool { return i == ssa.Instruction(validate) }, func(i ssa.Instruction) bool { return i.Block() == hdr && i == hdr.Instrs[0] }, func(b *ssa.BasicBlock, k int) bool {
+						// the field does not implement Validator: nothing to call
+						ifi, ok := b.Instrs[len(b.Instrs)-1].(*ssa.If)
+						if !ok {
+							return false
+						}
+						v, ts := boolTest(ifi)
+						if ex, isEx := v.(*ssa.Extract); isEx && ex.Index == 1 {
+							if _, isTA := ex.Tuple.(*ssa.TypeAssert); isTA {
+								return k == 1-ts
+							}
+						}
+						return false
+					})
+				}
+			}
+			heeded := c19ErrorGoesSomewhere(validate, ve, 0, map[ssa.Value]bool{})
+			c.check(skip == nil && heeded, "U8", key, c.ipos(validate), "every field of struct kind that implements Validator is validated, whatever it holds; the error comes back",
+				"a field of struct kind can be passed over without its Validate() being called (or the outcome is dropped): a nested section that no source filled — the one whose required fields are missing — is not validated and loading succeeds")
+		}
 	}
 
 	// ---- U5 -----------------------------------------------------------------
